@@ -198,6 +198,8 @@ func (fc *FnCtx) monitorCall(st *State, c *ast.CallExpr) bool {
 			}
 		}
 		fc.assumptions["monitor "+m.Type+"."+m.Lock+": every access to "+strings.Join(m.Fields, ", ")+" outside the functions under contract also holds the lock"] = true
+		st.lockSnap = nil
+		st.lockSnap = st.clone() // what atlock(e) refers to
 	default:
 		for k, cl := range m.Inv {
 			pc := &Clause{Kind: "monitor", Label: cl.Label, Props: m.Props, Expr: cl.Expr, Src: cl.Src, File: m.File, Line: m.Line}
@@ -229,6 +231,9 @@ func (fc *FnCtx) monitorCall(st *State, c *ast.CallExpr) bool {
 
 // monitorWrite: an assignment to a protected field needs its lock.
 func (fc *FnCtx) monitorWrite(st *State, lhs ast.Expr) {
+	if ix, isIx := unparen(lhs).(*ast.IndexExpr); isIx && isIntMap(fc.typeOf(ix.X)) {
+		lhs = ix.X // x.m[k] = v writes the protected map x.m
+	}
 	se, ok := unparen(lhs).(*ast.SelectorExpr)
 	if !ok || len(fc.eng.monitors()) == 0 {
 		return
